@@ -27,6 +27,24 @@ ROOTS = ['_Zlt9mpz_classS_', '_Zeq9mpz_classS_', '_Zle9mpz_classS_', '_Zgt9mpz_c
          '_Zge9mpz_classS_', '_Zne9mpz_classS_', '_Zng9mpz_class', '_Zpl9mpz_classS_',
          '_Zmi9mpz_classS_', '_Zml9mpz_classS_', '_Zdv9mpz_classS_', '_Zrm9mpz_classS_']
 
+PARSE_CFG = {
+    'names': {'(anonymous namespace)::parse_int': 'parse_int', '_ZN9mpz_classC1Em': 'mpz_from_ulong',
+              '_ZN9mpz_classC1Em10signedness': 'mpz_mk'},
+    'types': {r'(std::basic_string<char.*>|std::string)': 'verif_str', r'std::allocator<char>': 'int'},
+    'types_are_records': {r'(std::basic_string<char.*>|std::string)': True},
+    'record_ctypes': ['verif_str'],
+    'functor_types': [r'std::allocator<char>'],
+    'types_prelude': '#include "stoull_model.h"\n',
+    'extern': {r'operator-\|mpz_class \(mpz_class\)': 'mpz_neg', r'std::(__cxx11::)?stoull(\|.*)?': 'verif_stoull',
+               r'(std::basic_string<char.*>|std::string)::ctor\|.*': 'VERIF_MKSTR'},
+    'extern_may_raise': ['verif_stoull', 'mpz_neg'],
+    'exception_kinds': {r'std::runtime_error': 2, r'std::out_of_range': 3, r'std::invalid_argument': 4, r'std::domain_error': 1},
+    'globals': {'hex_constant_dom': '(*(const zw_cdom *)&g_dom_hex)', 'bin_constant_dom': '(*(const zw_cdom *)&g_dom_bin)',
+                'oct_constant_dom': '(*(const zw_cdom *)&g_dom_oct)', 'dec_constant_dom': '(*(const zw_cdom *)&g_dom_dec)'},
+    'bodies_prelude': 'mpz_class mpz_neg(mpz_class v);\nextern zw_cdom g_dom_hex, g_dom_bin, g_dom_oct, g_dom_dec;\n',
+}
+PARSE_ROOTS = ['(anonymous namespace)::parse_int']
+
 INPUTS = ['a_u', 'a_s', 'b_u', 'b_s', 'a_i']
 
 
@@ -52,6 +70,19 @@ def jobs(tier):
     add('mul', 'h_mul', 'mpz_mul', replace=arith + prims, defines=['SPEC_ABSTRACT'], timeout=900)
     add('div', 'h_div', 'mpz_div', replace=arith + prims + ['mpz_mul'], defines=['SPEC_ABSTRACT'], timeout=900, cbmc_args=['--object-bits', '10'])
     add('mod', 'h_mod', 'mpz_mod', replace=arith + prims + ['mpz_mul', 'mpz_div'], defines=['SPEC_ABSTRACT'], timeout=900, cbmc_args=['--object-bits', '10'])
+    n = int(os.environ.get('PARSE_N', '6' if tier == 'quick' else '10'))
+    J.append(Job('literal_parse_int_len%d' % n, [os.path.join(HERE, 'parse_harness.c'), os.path.join(OUT, 'parse_bodies.c'),
+                                                  os.path.join(OUT, 'int_bodies.c'), os.path.join(HERE, 'prims.c')],
+                 'hb_parse_int', includes=inc, inputs=['n', 'text[*'], defines=['PARSE_MAXLEN=%d' % n], kind='bounded',
+                 unwind=n + 3, timeout=1500,
+                 note='bounded: all scanner tokens "-"?[0-9][_a-zA-Z0-9]* of length <= %d; std::stoull by its model' % n))
+    for shape, to in ((('hex16', 1500),) if tier == 'quick' else (('hex16', 1500), ('dec_boundary', 2400))):
+        J.append(Job('literal_' + shape, [os.path.join(HERE, 'parse_harness.c'), os.path.join(OUT, 'parse_bodies.c'),
+                                          os.path.join(OUT, 'int_bodies.c'), os.path.join(HERE, 'prims.c')],
+                     'hb_parse_' + shape, includes=inc, inputs=['neg', 'digits', 'text[*'], defines=['PARSE_MAXLEN=22'],
+                     kind='bounded', unwind=25, timeout=to,
+                     note='bounded: literals of the fixed shape %s with every digit symbolic (reaches 2^63 and 2^64)' %
+                          {'hex16': '"-"? 0x h{16}', 'dec_boundary': '"-"? (18446744073709|9223372036854) d{6}'}[shape]))
     add('term_add', 'h_term_add', None, unwind=4, timeout=900, kind='proof', cbmc_args=['--object-bits', '12'],
         note='termination of add/sub mutual recursion: recursion unwinding assertion at depth 4, fully symbolic operands')
     add('control', 'h_control', None, replace=['mpz_add'], defines=['VERIF_CONTROL'], expect='fail',
@@ -74,6 +105,7 @@ TRUSTED = [
 ]
 ASSUMPTIONS = [
     'throw std::domain_error is lowered to: verif_raised=1; return dummy; every call of a may-raise function is followed by a propagation check (generated)',
+    'parse_int (bounded jobs): std::stoull by props/c08/stoull_model.h (assumed contract on libstdc++/glibc); try/catch lowered with exception kinds; the shape "0x0x.." (strtoull accepts its own 0x prefix) is left unconstrained; operands of throw dropped',
     'error message construction (describe_overflow / describe_div_0 -> std::stringstream) is dropped; it runs only on the raise path',
     'repository asserts are checked as obligations although the shipped build defines NDEBUG',
     'type invariant WF(v): m_sign is one of the two enumerators (C++ guarantees it; a nondet C struct does not)',
@@ -89,6 +121,10 @@ def spec_files():
 
 def prepare(tier):
     lw = vlib.extract('int', 'libzwerg/int.cc', CFG, ROOTS, OUT)
+    gen = vlib.gen_frontend(os.path.join(OUT, 'gen'))
+    pw = vlib.extract('parse', os.path.join(gen, 'parser.cc'), PARSE_CFG, PARSE_ROOTS, OUT, extra_flags=['-I' + gen])
+    lw.report['functions'] += pw.report['functions']
+    lw.report['externals'] += pw.report['externals']
     build_native()
     return {'unit': 'libzwerg/int.cc', 'functions': lw.report['functions'],
             'dropped': ['argument evaluation of int_error(...) i.e. describe_overflow/describe_div_0 message construction'],
